@@ -486,12 +486,21 @@ Cscd(b, o, p, pk) ==
       Nm(p \o "/" \o pk \o "/code_set", Fl(b, o + 4, 3, 4)), Nm(p \o "/" \o pk \o "/association", Fl(b, o + 5, 5, 2)),
       Nm(p \o "/" \o pk \o "/designator_type", Fl(b, o + 5, 3, 4)),
       Nm(p \o "/device_type_specific_parameters/pad", Fl(b, o + 28, 2, 1)),
-      Nm(p \o "/device_type_specific_parameters/disk_block_length", Fl(b, o + 29, 7, 24)),
+      Nm(p \o "/#reserved 28.7:5", Fl(b, o + 28, 7, 5)), Nm(p \o "/#reserved 28.1", Fl(b, o + 28, 1, 1)),
       \* reserved in the identification CSCD descriptor (unlike a VPD 83h designation descriptor, which has
       \* PROTOCOL IDENTIFIER and PIV there): no caller value maps to them, so they must read as zero
       Nm(p \o "/#reserved 4.7:4", Fl(b, o + 4, 7, 4)), Nm(p \o "/#reserved 5.7:2", Fl(b, o + 5, 7, 2)),
       Nm(p \o "/#reserved 6", Fl(b, o + 6, 7, 8)) }
     \cup Designator(p \o "/" \o pk \o "/designator", NatOfNum(Fl(b, o + 5, 3, 4)), Bs(b, o + 8, Nn(b, o + 7, 1)))
+    \* device type specific parameters, bytes 28-31 (SPC-4 6.4.5.3 - 6.4.5.5): block devices (00h 04h 05h 07h 0Eh)
+    \* PAD 28.2 and DISK BLOCK LENGTH; sequential access (01h) PAD, FIXED 28.0 and STREAM BLOCK LENGTH;
+    \* processor (03h) PAD only
+    \cup (LET dt == NatOfNum(Fl(b, o + 1, 4, 5)) IN
+          IF dt = 1 THEN { Nm(p \o "/device_type_specific_parameters/fixed", Fl(b, o + 28, 0, 1)),
+                           Nm(p \o "/device_type_specific_parameters/stream_block_length", Fl(b, o + 29, 7, 24)) }
+          ELSE IF dt = 3 THEN { Nm(p \o "/#reserved 28.0", Fl(b, o + 28, 0, 1)), Nm(p \o "/#reserved 29-31", Un(b, o + 29, 3)) }
+          ELSE { Nm(p \o "/#reserved 28.0", Fl(b, o + 28, 0, 1)),
+                 Nm(p \o "/device_type_specific_parameters/disk_block_length", Fl(b, o + 29, 7, 24)) })
 \* segment descriptors: 00h/01h/0Bh/0Ch block<->stream (24 bytes, tables 121/122): CAT 1.0, DESCRIPTOR LENGTH 2-3
 \* (0014h), source 4-5, destination 6-7, STREAM DEVICE TRANSFER LENGTH 9-11, BLOCK DEVICE NUMBER OF BLOCKS 14-15,
 \* BLOCK DEVICE LBA 16-23; 02h/0Dh block->block (28 bytes, table 123): DC 1.1 CAT 1.0, length 0018h, source,
